@@ -174,10 +174,16 @@ def sections_case(rng):
     from specs import elf_writer as W
     from elftools.elf.elffile import ELFFile
     cls, le = rng.choice([32, 64]), rng.random() < 0.5
-    strtab = b'\x00libc.so.6\x00libm.so\x00/opt/lib\x00me.so\x00'
+    # (a name need not be UTF-8: both views spell such bytes with the replacement character, as the section view's string
+    # table does)
+    odd = b'\xff\xfelib\xe9.so'
+    strtab = b'\x00libc.so.6\x00libm.so\x00/opt/lib\x00me.so\x00' + odd + b'\x00'
     so = {n: strtab.index(n.encode() + b'\x00') for n in ('libc.so.6', 'libm.so', '/opt/lib', 'me.so')}
+    so[odd.decode('utf-8', errors='replace')] = strtab.index(odd + b'\x00')
     tags = [('DT_NEEDED', so['libc.so.6']), ('DT_NEEDED', so['libm.so']), ('DT_SONAME', so['me.so']), ('DT_RUNPATH', so['/opt/lib']),
             ('DT_STRTAB', ('ptr', 'strtab')), ('DT_STRSZ', len(strtab))]
+    if rng.random() < 0.5:
+        tags.append(('DT_NEEDED', so[odd.decode('utf-8', errors='replace')]))
     rng.shuffle(tags)
     tags = [('DT_DEBUG', 0)] * rng.choice([1, 2]) + tags + [('DT_NULL', 0)]
     image, offs = W.write_dynamic_exec(cls, le, 62 if cls == 64 else 3, [('strtab', strtab)], tags)
